@@ -55,6 +55,23 @@ def jsonable(o: Any) -> Any:
         return repr(o)
 
 
+def same(a: Any, b: Any) -> bool:
+    """Structural equality for observations: NaN equals NaN, tuples and lists of equal items are equal item by item, values
+    whose == raises or is not a bool (numpy arrays, tripwire objects) are compared by repr."""
+    if a is b:
+        return True
+    if isinstance(a, float) and isinstance(b, float) and a != a and b != b:
+        return True
+    if isinstance(a, dict) and isinstance(b, dict):
+        return set(map(repr, a)) == set(map(repr, b)) and len(a) == len(b) and all(k in b and same(v, b[k]) for k, v in a.items())
+    if isinstance(a, (list, tuple)) and isinstance(b, (list, tuple)):
+        return type(a) is type(b) and len(a) == len(b) and all(same(x, y) for x, y in zip(a, b))
+    try:
+        return bool(a == b)
+    except Exception:
+        return repr(a) == repr(b)
+
+
 def sha(o: Any) -> str:
     return hashlib.sha256(
         json.dumps(jsonable(o), sort_keys=True, default=repr).encode()
